@@ -65,7 +65,7 @@ def programs(tier):
         B.add(call_step([shp[a], shp[b]], "identity"))
         B.add(call_step([shp[c]], "sumprod"))
         B.add(call_step([shp[b], shp[c], shp[a]], "reverse"))
-        progs.append(B.build())
+        progs.append(dict(B.build(), fresh=True))
     # a decorated call whose body raises (the program catches it) leaves nothing behind: the decorated calls after it are ordinary
     for k, (a, b) in enumerate((("int", "float"), ("list_if", "int"), ("bool", "bool"))):
         for bad in ("raise", "assert"):
@@ -74,7 +74,7 @@ def programs(tier):
             B.add({"op": "try", "body": [{"op": "snark", "args": [shp[a]], "body": {"steps": inner, "ret": "args", "how": "identity"}}]})
             B.add(call_step([shp[b]], "identity"))
             B.add(call_step([shp[a], shp[b]], "sumprod"))
-            progs.append(B.build())
+            progs.append(dict(B.build(), fresh=True))
     # keyword arguments
     for a in ("int", "float", "list_if"):
         B = gen.Builder("snark/kw/%s" % a, "plain", None, {"op": "kw", "kinds": a})
